@@ -68,6 +68,23 @@ def prepare(chk):
 # reference resolver (the statement's order, kernel path semantics)
 # ---------------------------------------------------------------------------------------------
 
+def _collapse_nosym(path):
+    """remove 'x/..' pairs of an absolute path lexically, except where x is a symbolic link (there the
+    kernel's answer differs from the lexical one and is binding); '.' and empty components go too"""
+    out = []
+    for c in path.split("/"):
+        if c in ("", "."):
+            continue
+        if c == ".." and out and out[-1] != "..":
+            if os.path.islink("/" + "/".join(out)):
+                out.append(c)
+            else:
+                out.pop()
+        else:
+            out.append(c)
+    return "/" + "/".join(out)
+
+
 def _join(base, op):
     if op.startswith("/"):
         return op
@@ -98,10 +115,10 @@ def walk(case, run, root, interp):
                        directory the tool was started in (False)
        search_srcdir   with -srcdir, relative -I/-S operands are relative to -srcdir (True) or to the
                        directory the tool was started in (False)
-       lenient_dotdot  a candidate path that denotes nothing for the kernel (a component before a '..'
-                       is missing) but denotes a file once 'x/..' pairs are removed lexically counts as
-                       found (True) or not (False).  A path the kernel *does* resolve always denotes
-                       what the kernel says.
+       lenient_dotdot  a candidate path that denotes nothing for the kernel because a component before a '..'
+                       is missing, but denotes a file once such 'x/..' pairs are removed lexically, counts as
+                       found (True) or not (False).  'x/..' is never removed where x is a symbolic link, and a
+                       path the kernel *does* resolve always denotes what the kernel says.
     """
     units_by_phys = {}
     for u in case["units"]:
@@ -133,7 +150,7 @@ def walk(case, run, root, interp):
         if os.path.isfile(path):
             return path
         if interp["lenient_dotdot"] and ".." in path.split("/"):
-            n = os.path.normpath(path)
+            n = _collapse_nosym(path)
             if os.path.isfile(n):
                 return n
         return None
@@ -441,7 +458,7 @@ def judge_run(case, run, root, out):
                 gp = os.path.realpath(os.path.join(root, unit[got_unit]["path"]))
                 effect["got"] = "other"
                 for k, dd, path, idx in w.candidates(s0, ent["path"], ent["phys"], full=True):
-                    f = w.probe(path) or (os.path.normpath(path) if os.path.isfile(os.path.normpath(path)) else None)
+                    f = w.probe(path) or (_collapse_nosym(path) if os.path.isfile(_collapse_nosym(path)) else None)
                     if f and os.path.realpath(f) == gp:
                         effect["got"] = k
                         if idx is not None and ent["sidx"] is not None:
@@ -501,9 +518,15 @@ def judge_run(case, run, root, out):
                 counters["once_only_files_reached_repeatedly"] += 1
     # ---- ownership (interrogate only) ------------------------------------------------------------
     if tool == "interrogate" and obs["own"] is not None:
+        # A fact is 'must'/'must-not' only when EVERY admissible reading of what the statement leaves open
+        # classifies it so -- not merely the readings this run happens to match: a run can match a reading
+        # by coincidence (e.g. through a listed defect elsewhere in the same tree), and with -srcdir the
+        # readings disagree on which directory 'the working directory' is, hence on ownership.
         owns = [ownership(case, w, root) for _, w in matching]
+        owns_all = [ownership(case, w, root) for _, w in walks]
         for uid in sorted(owns[0]):
             cl = {o.get(uid, ("absent", []))[0] for o in owns}
+            cl |= {o[uid][0] for o in owns_all if uid in o}
             kinds = owns[0][uid][1]
             if len(cl) != 1 or None in cl or "absent" in cl:
                 counters["ownership_unspecified"] += 1
@@ -558,7 +581,15 @@ def _key(case, run, v):
         if c not in BENIGN:
             causes.add("srcdir:" + c)
     causes = sorted(causes)
-    symup = [c for c in causes if "symup" in c]
+    # what is left of a reduced case is needed for the violation: a '<symlink>/..' operand in ANY remaining
+    # site (not only the sites that reach the judged unit) makes it an instance of the lexical-.. class
+    other = set()
+    for u in case["units"]:
+        for st in u["sites"]:
+            c = _class_path(case, st["operand"])
+            if "symup" in c:
+                other.add("operand:" + c)
+    symup = [c for c in causes if "symup" in c] or sorted(other)
     if symup:
         where = {c.split(":")[0] for c in symup}
         first = next(x for x in ("srcdir", "file", "dir", "operand") if x in where)
@@ -583,7 +614,10 @@ def _key(case, run, v):
         return "missing-no-warning:tool=%s,form=%s" % (tool, e["form"])
     if v["cat"] == "not-owned" and "cmdline" in e["route"].split("+"):
         return "not-owned:named=cmdline,cause=%s" % ("+".join(causes) or "-")
-    return "%s:route=%s,cause=%s" % (v["cat"], e["route"], "+".join(causes) or "-")
+    if not causes:
+        # no hazardous spelling left: the effect is the signature (route by which the file arrived, -srcdir or not)
+        return "%s:route=%s,srcdir=%s" % (v["cat"], e["route"], "yes" if run.get("srcdir") else "no")
+    return "%s:route=%s,cause=%s" % (v["cat"], e["route"], "+".join(causes))
 
 
 def _run_tree_once(ctx, case, tag):
@@ -927,8 +961,8 @@ def _normalise_operands(ctx, case, v, only=None):
             if e is None:
                 continue
             for k, base, path, idx in w.candidates(site, e["path"], e["phys"], full=True):
-                if not os.path.isfile(path) and os.path.isfile(os.path.normpath(path)):
-                    path = os.path.normpath(path)
+                if not os.path.isfile(path) and os.path.isfile(_collapse_nosym(path)):
+                    path = _collapse_nosym(path)
                 if os.path.isfile(path):
                     new = os.path.relpath(os.path.realpath(path), os.path.realpath(base))
                     if new != site["operand"] and _class_path(case, new) in BENIGN:
